@@ -24,7 +24,7 @@ RULE = ("repro: generated annealer calls (all functions / model kinds / schedule
         "zerot: generated models with full initial state and explicit schedule [0]*k (k=1..4), both visiting orders, all four "
         "functions; plus tie-free Matrix instances (distinct power-of-two spin couplings, every index carries a term) whose final "
         "state must equal the reference in-order sweep. dist: tiny models (N<=4 spins, degree<=3), initial state, explicit "
-        "schedule of 1..3 positive temperatures, both visiting orders (in-order only for Matrix kinds, where the order is pinned), "
+        "schedule of 1..4 temperatures (positive; zero-temperature sweeps are mixed in on instances without dE == 0 ties: quench and re-heating), both visiting orders (in-order only for Matrix kinds, where the order is pinned), "
         "2*10^5 final states from one seeded call compared with the exact Metropolis k-sweep distribution by pooled chi-square. "
         "Non-trivial = >=2 coupled spins and (repro: num_anneals>=2; zerot: some flip happens; dist: >=2 sweeps or random order). "
         "Distinct = distinct spec hash.")
@@ -178,13 +178,17 @@ def dist_strategy():
         return {"func": func, "kind": kind, "labels": labels, "terms": terms, "stale": [],
                 "num_anneals": N_SAMPLES, "anneal_duration": 1, "schedule": ("explicit", list(temps)),
                 "temperature_range": None, "init": bits,
-                "in_order": bool(in_order and gen.is_matrix(kind)), "seed": seed}
+                # in-order visiting is compared only where the order is pinned: Matrix kinds that stay
+                # Matrix on the way to the kernel (anneal_pubo turns a QUBOMatrix into a labelled model)
+                "in_order": bool(in_order and gen.is_matrix(kind)
+                                 and not (func == "anneal_pubo" and kind == "QUBOMatrix")), "seed": seed}
     pairs = [(f, k) for f in ag.FUNCS for k in ag.FUNCS[f][1]]
+    pairs = pairs + [p for p in pairs if gen.is_matrix(p[1])] * 2     # in-order kernels need Matrix kinds
     return st.sampled_from(pairs).flatmap(lambda fk: st.builds(
         mk, st.just(fk[0]), st.just(fk[1]), st.integers(2, 4),
         st.lists(st.lists(st.integers(0, 3), min_size=1, max_size=3), min_size=1, max_size=5),
         st.lists(st.sampled_from([-2, -1, -0.5, 0.5, 1, 2, 1.5, -1.5]), min_size=1, max_size=5),
-        st.lists(st.sampled_from([0.5, 1.0, 2.0, 4.0]), min_size=1, max_size=3),
+        st.lists(gen.pick((1.0, 2), (0.5, 2), (2.0, 2), (4.0, 1), (0.0, 3)), min_size=1, max_size=4),
         st.lists(st.integers(0, 1), min_size=1, max_size=4), st.booleans(),
         st.integers(0, 2 ** 31 - 1)))
 
@@ -198,7 +202,10 @@ def exact_distribution(E, n, temps, in_order, start):
     def kernel(i, T):
         partner = idx ^ (1 << i)
         dE = E[partner] - E[idx]
-        a = np.where(dE <= 0, 1.0, np.exp(-np.maximum(dE, 0) / T))
+        if T == 0:
+            a = np.where(dE < 0, 1.0, 0.0)      # only used on tie-free instances (no dE == 0)
+        else:
+            a = np.where(dE <= 0, 1.0, np.exp(-np.maximum(dE, 0) / T))
         K = np.zeros((S, S))
         K[idx, partner] += a
         K[idx, idx] += 1.0 - a
@@ -249,6 +256,9 @@ def run_dist(spec, rec):
     import qubovert as qv
     res, model, expected, ref_terms, spin, init = _sample(qv, spec, spec["seed"])
     kind = spec["kind"]
+    alt = ag.alt_expected_for(spec, model, ref_terms, spin)
+    if alt is not None and len(res) and set(res[0].state) == alt:
+        expected = alt      # anneal_pubo(QUBOMatrix): states over the variables present (see anneal_gen)
     if gen.is_matrix(kind):
         order = sorted(expected)
     else:
@@ -264,11 +274,24 @@ def run_dist(spec, rec):
     def index(state):
         r = 0
         for l, v in state.items():
+            if l not in pos:
+                continue
             bit = (1 - v) // 2 if spin else v
             r |= bit << pos[l]
         return r
     start = index(init)
-    temps = spec["schedule"][1]
+    temps = list(spec["schedule"][1])
+    if any(t == 0 for t in temps):
+        # zero-temperature sweeps inside the schedule (quench, re-heating) have an exact kernel only
+        # when no single-spin flip has dE == 0 (the statement does not pin the tie rule)
+        S = np.arange(1 << n)
+        tiefree = all((E[S ^ (1 << i)] != E[S]).all() for i in range(n))
+        if not tiefree:
+            rec.add("dist_zero_temperature_dropped_ties")
+            spec = dict(spec)
+            temps = [t if t > 0 else 1.0 for t in temps]
+            spec["schedule"] = ("explicit", temps)
+            res, model, expected, ref_terms, spin, init = _sample(qv, spec, spec["seed"])
     probs = exact_distribution(E, n, temps, spec["in_order"], start)
 
     def counts_of(results):
@@ -297,6 +320,8 @@ def run_dist(spec, rec):
     coupled = any(len(set(k)) >= 2 for k in ref_terms)
     cl = [spec["func"], "kind=" + kind, "order=" + ("in" if spec["in_order"] else "random"),
           "sweeps=%d" % len(temps), "n=%d" % n]
+    if any(t == 0 for t in temps):
+        cl.append("mixed_zero_and_positive" if any(t > 0 for t in temps) else "all_zero_temperature")
     rec.case(spec, coupled and (len(temps) >= 2 or not spec["in_order"]), cl)
 
 
@@ -304,5 +329,5 @@ def subchecks(tier):
     return [
         Sub("repro", repro_strategy(), run_repro, quick=3000, thorough=60000),
         Sub("zerot", zerot_strategy(), run_zerot, quick=4000, thorough=100000),
-        Sub("dist", dist_strategy(), run_dist, quick=96, thorough=2400, shrink_quick=False),
+        Sub("dist", dist_strategy(), run_dist, quick=144, thorough=3600, shrink_quick=False),
     ]
